@@ -473,8 +473,13 @@ def _get_comp_cls_media(comp_cls: Type["Component"]) -> Any:
             #
             # However, the `__add__` converts our `media_cls` to Django's Media class.
             # So we also have to convert it back to `media_cls`.
+            # NOTE: We keep the individual lists as they were declared (same as `__add__` does), so that Django
+            #       can order the files consistently with ALL of them. Flattening them into a single list
+            #       would invent an order between files from unrelated lists.
             merged_media = media + base_media
-            media = media_cls(js=merged_media._js, css=merged_media._css)
+            media = media_cls()
+            media._js_lists = merged_media._js_lists
+            media._css_lists = merged_media._css_lists
 
         # Lastly, cache the merged-up Media, so we don't have to search further up the MRO the next time
         media_cache[curr_cls] = media
